@@ -226,7 +226,9 @@ def c08 (op : String) (args : List String) (impl : String) : Verdict :=
           -- nothing is written yet), whole ms since the call began - not after the model's t0, so
           -- `observation_within_model_bounds` applies to the instants counted from there
           let t0Tok := tok impl "t0"
+          -- (a missing or malformed token must not loosen the bounds: it fails `timed_observation_wellformed`)
           let t0 := t0Tok.toNat?.getD 0
+          let t0WellFormed := t0Tok.toNat?.isSome
           let model := s!"class={cls} pkt={pkt} first={first} verbatim={verbatim} resends={resends} " ++
             s!"prompt={if isCtx then "true" else "na"} silent={if blind then "na" else boolStr true} " ++
             s!"goroutines={boolStr s.connClosed} fds={boolStr s.connClosed} " ++
@@ -268,7 +270,7 @@ def c08 (op : String) (args : List String) (impl : String) : Verdict :=
              ("no_resend_when_retry_not_positive", decide (retry > 0) || tok impl "resends" == "ok" || tok impl "resends" == "na"),
              ("resend_count_matches_interval", decide (retry ≤ 0) || tok impl "resends" == "ok" || tok impl "resends" == "na"),
              -- the same two clauses and `resend_not_early`, as the timed machine's theorems evaluated on the raw numbers
-             ("timed_observation_wellformed", timedWellFormed),
+             ("timed_observation_wellformed", timedWellFormed && t0WellFormed),
              ("no_resend_when_retry_not_positive", decide (retry > 0) || countOk),
              ("resend_not_early", notEarly),
              ("resend_count_matches_interval", decide (retry ≤ 0) || countOk),
